@@ -26,8 +26,11 @@ import DsdVerif.DriverComplexS3
 import DsdVerif.DriverReadPil
 import DsdVerif.DriverDunders
 import DsdVerif.DriverMembers
+import DsdVerif.DriverMembers2
+import DsdVerif.DriverStrings
+import DsdVerif.DriverReadLine
 import DsdVerif.DriverDomain
-import DsdVerif.DriverLegacyInit
+import DsdVerif.DriverLegacySeq
 import DsdVerif.Model.Dlc
 
 namespace Dsd.Driver
@@ -595,7 +598,7 @@ def stepR (s : RState) (line : String) : RState × String :=
 structure DState where
   r : RState := {}
   py : List (Nat × Gen.ComplexS.Self) := []        -- handle ↦ the object as the translated methods left it
-  lr : DriverLegacyReg.LegacyRegDState := {}       -- the translated legacy objects and class registry (Gen/PyLegacy.lean, Gen/PyLegacyReg.lean)
+  ls : DriverLegacySeq.LegacySeqDState := {}       -- the translated legacy objects, class registry and sequence constraints (Gen/PyLegacy*.lean)
   dom : DriverDomain.DomainDState := {}            -- the class state of the translated DomainS request (Gen/PyDomain.lean); ops prefixed `pydom.`
 
 /-- the translated object of a handle: as it was left, or (first use) as `__init__` leaves it for the model's description -/
@@ -649,11 +652,11 @@ def stepD (d : DState) (line : String) : DState × String :=
       | none => (d, "bad-op")
     else
     match (((DriverKernel.stepKernel line).orElse (fun _ => DriverIdent.stepIdent line)).orElse (fun _ => DriverIdent2.stepIdent2 line)).orElse
-        (fun _ => ((DriverSingleton.stepSingleton line).orElse (fun _ => DriverUnits.stepUnits line)).orElse (fun _ => ((DriverSetObjects.stepSetObjects line).orElse (fun _ => DriverComplexS2.stepComplexS2 line)).orElse (fun _ => (DriverReaderFns.stepReaderFns line).orElse (fun _ => (DriverSetters.stepSetters line).orElse (fun _ => (DriverComplexS3.stepComplexS3 line).orElse (fun _ => ((DriverReadPil.stepReadPil line).orElse (fun _ => DriverDunders.stepDunders line)).orElse (fun _ => DriverMembers.stepMembers line))))))) with
+        (fun _ => ((DriverSingleton.stepSingleton line).orElse (fun _ => DriverUnits.stepUnits line)).orElse (fun _ => ((DriverSetObjects.stepSetObjects line).orElse (fun _ => DriverComplexS2.stepComplexS2 line)).orElse (fun _ => (DriverReaderFns.stepReaderFns line).orElse (fun _ => (DriverSetters.stepSetters line).orElse (fun _ => (DriverComplexS3.stepComplexS3 line).orElse (fun _ => ((DriverReadPil.stepReadPil line).orElse (fun _ => DriverDunders.stepDunders line)).orElse (fun _ => (((DriverMembers.stepMembers line).orElse (fun _ => DriverMembers2.stepMembers2 line)).orElse (fun _ => DriverStrings.stepStrings line)).orElse (fun _ => DriverReadLine.stepReadLine line)))))))) with
     | some out => (d, out)
     | none =>
-      match DriverLegacyInit.stepLegacyInit d.lr line with
-      | some (lr', out) => ({ d with lr := lr' }, out)
+      match DriverLegacySeq.stepLegacySeq d.ls line with
+      | some (ls', out) => ({ d with ls := ls' }, out)
       | none => let (r', out) := stepR d.r line; ({ d with r := r' }, out)
 
 end Dsd.Driver
